@@ -120,6 +120,9 @@ def scenario(pk, params, inp):
                               "chosen": int(info["chosen_coalition"]), "obs": list(obs), "inner_after": list(inner.state),
                               "reward": reward, "inner_reward": inner.reward, "done": bool(done), "inner_done": bool(inner.done)})
             out["blind_steps"] = steps
+            # a second episode on the same wrapper: the state property must follow the reset
+            obs_r, _ = lin.reset()
+            out["after_reset"] = {"obs": list(obs_r), "state": list(lin.state), "inner": list(inner.state), "mask": [bool(x) for x in lin.action_masks()]}
             return out
         for S in params["K"]:
             inner.step(ex.index(S))
@@ -165,6 +168,11 @@ def claims(params, inp, out, lg):
             refb = _per_size(lg, st["inner_after"], ex, n)
             cl.append((f"consecutive-step-{i}:observation-per-size-sum", lg.And([lg.eq(a, b) for a, b in zip(st["obs"], refb)])))
             cl.append((f"consecutive-step-{i}:reward-done-pass-through", lg.And(lg.eq(st["reward"], st["inner_reward"]), st["done"] == st["inner_done"])))
+        ar = out["after_reset"]
+        refr = _per_size(lg, ar["inner"], ex, n)
+        cl.append(("second-episode:reset-observation-and-state-per-size-sum",
+                   lg.And([lg.eq(a, b) for a, b in zip(ar["obs"], refr)], [lg.eq(a, b) for a, b in zip(ar["state"], refr)], len(ar["state"]) == n)))
+        cl.append(("second-episode:mask-reopened", ar["mask"] == [any(F.popcount(S) == s for S in ex) for s in range(n)]))
         return cl
     cl.append(("mask-length-n", out["mask_len"] == n))
     for s in range(n):
